@@ -132,10 +132,13 @@ FIRING = [
     ("dna-float-unclamped", "jesse/helpers.py", "            decoded_gene = float(min(max(decoded_gene, h['min']), h['max']))\n", "", ["C19"]),
     ("dna-float-clamp-returns-bound", "jesse/helpers.py", "decoded_gene = float(min(max(decoded_gene, h['min']), h['max']))", "decoded_gene = min(max(decoded_gene, h['min']), h['max'])", ["C19"]),
     ("fast-symbol-major-chunk", BT, "    if len(candles) > 1 and candles_step > 1:\n", "    if False and len(candles) > 1 and candles_step > 1:\n", ["C02", "C03", "C07"]),
-    ("fast-symbol-major-chunk-range", BT, "        for k in range(candles_step):\n            _simulate_new_candles", "        for k in range(candles_step - 1):\n            _simulate_new_candles", ["C02", "C07"]),
+    ("fast-symbol-major-chunk-range", BT, "        for k in range(candles_step):\n            if k > 0:", "        for k in range(candles_step - 1):\n            if k > 0:", ["C02", "C07"]),
     ("liquidate-keeps-consumed-other-kind", "jesse/strategies/Strategy.py", "        if submitted is not None and np.array_equal(getattr(self, other), submitted) and not any(", "        if False and not any(", ["C10"]),
     ("fast-multi-symbol-no-minute-end", BT, "            if k > 0:\n", "            if False and k > 0:\n", ["C02"]),
     ("fast-multi-symbol-flush-before-prune", BT, "                for r in router.routes:\n                    store.orders.update_active_orders(r.exchange, r.symbol)\n                _execute_market_orders()\n", "                _execute_market_orders()\n                for r in router.routes:\n                    store.orders.update_active_orders(r.exchange, r.symbol)\n", ["C02"]),
+    ("gauss-strips-inner-nans", "jesse/indicators/gauss.py", "    source = source[valid[0]:] if valid.size > 0 else source[N:]\n", "    source = source[~np.isnan(source)]\n", ["C13"]),
+    ("maaq-strips-inner-nans", "jesse/indicators/maaq.py", "    source = source[valid[0]:] if valid.size > 0 else source[len(source):]\n", "    source = source[~np.isnan(source)]\n", ["C13"]),
+    ("rsmk-zero-weight-times-inf", "jesse/indicators/rsmk.py", "np.sum(np.where(lag < 0, 0.0, weights * segment.reshape(1, -1)), axis=1)", "np.sum(weights * segment.reshape(1, -1), axis=1)", ["C13"]),
     ("dna-append-multiple-empty", "jesse/libs/dynamic_numpy_array/__init__.py", "        if len(items) == 0:\n            return\n", "", ["C18"]),
     ("dna-delete-raw-index", "jesse/libs/dynamic_numpy_array/__init__.py", "        if index < 0:\n            index = (self.index + 1) - abs(index)\n        if index > self.index or index < 0:\n            raise IndexError('list assignment index out of range')\n\n        self.array = np.delete", "        self.array = np.delete", ["C18"]),
 ]
@@ -183,4 +186,124 @@ SILENT = [
     ("liquidate-del-remembered", "jesse/strategies/Strategy.py", "            self._take_profit = None\n            self.take_profit = self.position.qty, self.price", "            self._take_profit = np.array([])\n            self.take_profit = self.position.qty, self.price", ["C10"]),
     ("dna-float-clip", "jesse/helpers.py", "            decoded_gene = float(min(max(decoded_gene, h['min']), h['max']))\n", "            decoded_gene = float(np.clip(decoded_gene, h['min'], h['max']))\n", ["C19"]),
     ("daily-sample-rewritten", BT, "        if (i + 1) % 1440 == 0 and i + 1 < length:\n            save_daily_portfolio_balance()", "        minute = i + 1\n        if minute < length and minute % 1440 == 0:\n            save_daily_portfolio_balance()", ["C16", "C12", "C01"]),
+]
+
+
+# ---- behaviour-preserving REFACTORINGS of the simulators (helper extraction, renamed loop variable, items() iteration): the rules
+# ---- that look at the simulators must not depend on names or on how the code is cut into functions
+def _rename_time_loop_variable(src):
+    import re
+    a = src.find("    for i in range(length):")
+    b = src.find("    _finish_progress_bar(progressbar, run_silently)", a)
+    if a < 0 or b < 0:
+        return None
+    return src[:a] + re.sub(r"\bi\b", "minute", src[a:b]) + src[b:]
+
+
+_R_PIECE = [("""    if len(candles) > 1 and candles_step > 1:
+        for k in range(candles_step):
+            if k > 0:
+                # the end of the previous minute, as in the normal simulator: orders that got executed or canceled
+                # during it are no longer listed as active, and the MARKET orders submitted during it are executed
+                for r in router.routes:
+                    store.orders.update_active_orders(r.exchange, r.symbol)
+                _execute_market_orders()
+            _simulate_new_candles(candles, candle_index + k, 1)
+        return
+
+    i = candle_index
+""", """    if len(candles) > 1 and candles_step > 1:
+        for k in range(candles_step):
+            if k > 0:
+                _end_of_minute()
+            _simulate_new_candles_piece(candles, candle_index + k, 1)
+    else:
+        _simulate_new_candles_piece(candles, candle_index, candles_step)
+
+
+def _end_of_minute() -> None:
+    for r in router.routes:
+        store.orders.update_active_orders(r.exchange, r.symbol)
+    _execute_market_orders()
+
+
+def _simulate_new_candles_piece(candles: dict, candle_index: int, candles_step: int) -> None:
+    i = candle_index
+""")]
+_R_ITEMS = [("""        for j in candles:
+            short_candle = candles[j]['candles'][i]
+            if i != 0:
+                previous_short_candle = candles[j]['candles'][i - 1]
+                short_candle = _get_fixed_jumped_candle(previous_short_candle, short_candle)
+            exchange = candles[j]['exchange']
+            symbol = candles[j]['symbol']
+""", """        for j, entry in candles.items():
+            one_minutes = entry['candles']
+            short_candle = one_minutes[i]
+            if i != 0:
+                previous_short_candle = one_minutes[i - 1]
+                short_candle = _get_fixed_jumped_candle(previous_short_candle, short_candle)
+            exchange = entry['exchange']
+            symbol = entry['symbol']
+""")]
+_GEN_BODY = """            # generate and add candles for bigger timeframes
+            for timeframe in config['app']['considering_timeframes']:
+                # for 1m, no work is needed
+                if timeframe == '1m':
+                    continue
+
+                count = timeframe_to_one_minutes[timeframe]
+                # until = count - ((i + 1) % count)
+
+                if (i + 1) % count == 0:
+                    generated_candle = generate_candle_from_one_minutes(
+                        timeframe,
+                        candles[j]['candles'][(i - (count - 1)):(i + 1)]
+                    )
+
+                    store.candles.add_candle(generated_candle, exchange, symbol, timeframe, with_execution=False,
+                                             with_generation=False)
+"""
+_R_SYMHELPER = [(_GEN_BODY, "            _generate_bigger_timeframes(candles[j]['candles'], i, exchange, symbol)\n"),
+                ("def _step_simulator(", """def _generate_bigger_timeframes(one_minutes, i: int, exchange: str, symbol: str) -> None:
+    for timeframe in config['app']['considering_timeframes']:
+        if timeframe == '1m':
+            continue
+
+        count = timeframe_to_one_minutes[timeframe]
+
+        if (i + 1) % count == 0:
+            generated_candle = generate_candle_from_one_minutes(
+                timeframe,
+                one_minutes[(i - (count - 1)):(i + 1)]
+            )
+
+            store.candles.add_candle(generated_candle, exchange, symbol, timeframe, with_execution=False,
+                                     with_generation=False)
+
+
+def _step_simulator(""")]
+_ROUTES_BODY = """        for r in router.routes:
+            count = timeframe_to_one_minutes[r.timeframe]
+            # 1m timeframe
+            if r.timeframe == timeframes.MINUTE_1:
+                r.strategy._execute()
+            elif (i + 1) % count == 0:
+                # print candle
+                if jh.is_debuggable('trading_candles'):
+                    print_candle(store.candles.get_current_candle(r.exchange, r.symbol, r.timeframe), False,
+                                 r.symbol)
+                r.strategy._execute()
+
+            store.orders.update_active_orders(r.exchange, r.symbol)
+"""
+_R_ROUTESHELPER = [(_ROUTES_BODY, "        _execute_routes_of_minute(i)\n"),
+                   ("def _step_simulator(", "def _execute_routes_of_minute(i: int) -> None:\n" + "\n".join(l[4:] if l.startswith("    ") else l for l in _ROUTES_BODY.split("\n")) + "\n\ndef _step_simulator(")]
+_SIM_IDS = ["C01", "C02", "C03", "C05", "C07", "C12", "C16"]
+SILENT += [
+    ("refactor-rename-time-loop-variable", BT, _rename_time_loop_variable, None, _SIM_IDS),
+    ("refactor-multi-symbol-replay-into-helpers", BT, _R_PIECE, None, _SIM_IDS),
+    ("refactor-symbol-loop-over-items", BT, _R_ITEMS, None, _SIM_IDS),
+    ("refactor-window-generation-into-helper", BT, _R_SYMHELPER, None, _SIM_IDS),
+    ("refactor-route-execution-into-helper", BT, _R_ROUTESHELPER, None, _SIM_IDS),
 ]
